@@ -1,5 +1,6 @@
 (* C10 - Retries: at most r+1 attempts, only after timeouts, same result. *)
-From GD Require Import Base.Prelude Model.Strings Model.Buffer Model.Net Model.Valve Model.Quake Model.Unreal2 Proofs.Retry.
+From GD Require Import Base.Prelude Model.Strings Model.Buffer Model.Net Model.Gamespy Model.Games Model.Minecraft Model.Valve Model.Quake Model.Unreal2
+  Proofs.Retry Proofs.Msafe Proofs.RetryProtocols.
 
 (* the helper against its abstract description, for every attempt function,
    every state and every retry count *)
@@ -56,6 +57,81 @@ Theorem c10_unreal2_unit_retried : forall port retries kind,
   = retry_on_timeout retries (do* _ := send port (u2_request kind) in udp_recv (Some u2_packet_size)).
 Proof. reflexivity. Qed.
 Print Assumptions c10_unreal2_unit_retried.
+
+(* ---- every fault vector, for the protocols whose retried unit is one request and one reply ----
+   A fault vector v is a list over {false = no reply arrives, true = the request cannot be
+   sent}; faults_match v says that the script starts with exactly these faults and gives what
+   is left of it.  retried_unit att sz f, in full:
+     - |v| <= r faults and then a datagram d: retry_on_timeout r att returns f (d cut to the
+       receive size) - the parse of that reply, whatever it is, valid or malformed, and the same
+       as with no fault - after exactly |v| + 1 requests, the rest of the script untouched;
+     - r + 1 faults: Err PacketSend / Err PacketReceive (that of the last fault) after exactly
+       r + 1 requests. *)
+Check @retried_unit : forall A : Type, M A -> option N -> (bytes -> outcome A) -> Prop.
+Theorem c10_retried_unit_means : forall A (att : M A) sz f,
+  retried_unit att sz f <->
+  ((forall v r n d rest,
+      (length v <= N.to_nat r)%nat ->
+      faults_match v (n_sends n) (n_fail n) (n_udp n) = Some (Datagram d :: rest) ->
+      existsb (N.eqb (n_sends n + N.of_nat (length v))) (n_fail n) = false ->
+      exists m, retry_on_timeout r att n
+                = (f (firstn (N.to_nat (match sz with Some s => s | None => default_packet_size end)) d), m)
+                /\ n_sends m = n_sends n + N.of_nat (length v) + 1 /\ n_udp m = rest)
+   /\ (forall v last r n u,
+      length v = N.to_nat r ->
+      faults_match (v ++ [last]) (n_sends n) (n_fail n) (n_udp n) = Some u ->
+      exists m, retry_on_timeout r att n = (Err (if last then PacketSend else PacketReceive), m)
+                /\ n_sends m = n_sends n + r + 1 /\ n_udp m = u)).
+Proof. exact (fun A att sz f => conj (fun x => x) (fun x => x)). Qed.
+Print Assumptions c10_retried_unit_means.
+
+Theorem c10_bedrock_every_fault_vector : forall port t,
+  query_bedrock port t = (do* _ := udp_new port t in retry_on_timeout (ts_retries_or_default t) (bedrock_info_impl port))
+  /\ retried_unit (bedrock_info_impl port) None (run_r bedrock_parse).
+Proof. exact (fun port t => conj eq_refl (bedrock_retried port)). Qed.
+Print Assumptions c10_bedrock_every_fault_vector.
+
+Theorem c10_gamespy2_every_fault_vector : forall port t,
+  gs2_query port t = (do* _ := udp_new port t in
+                      do* d := retry_on_timeout (ts_retries_or_default t) (gs2_request_impl port) in mlift (gs2_parse d))
+  /\ retried_unit (gs2_request_impl port) None (fun d => run_r (gs2_header d) d).
+Proof. exact (fun port t => conj eq_refl (gs2_retried port)). Qed.
+Print Assumptions c10_gamespy2_every_fault_vector.
+
+Theorem c10_quake_every_fault_vector : forall port v,
+  retried_unit (get_data_impl port v) None (fun d => run_r (quake_header v) d).
+Proof. exact quake_retried. Qed.
+Print Assumptions c10_quake_every_fault_vector.
+
+Theorem c10_unreal2_every_fault_vector : forall port retries kind,
+  u2_get_request_data port retries kind = retry_on_timeout retries (u2_attempt port kind)
+  /\ retried_unit (u2_attempt port kind) (Some u2_packet_size) (fun d => Ok d).
+Proof. exact (fun port retries kind => conj eq_refl (unreal2_retried port kind)). Qed.
+Print Assumptions c10_unreal2_every_fault_vector.
+
+(* Mindustry opens a socket per attempt; settings_ok = no zero duration, what TimeoutSettings::new guarantees *)
+Theorem c10_mindustry_every_fault_vector : forall port t, settings_ok t ->
+  mindustry_query port t = retry_on_timeout (ts_retries_or_default t) (mindustry_attempt port t)
+  /\ retried_unit (mindustry_attempt port t) (Some 500) (run_r mindustry_parse).
+Proof. exact (fun port t Hs => conj eq_refl (mindustry_retried port t Hs)). Qed.
+Print Assumptions c10_mindustry_every_fault_vector.
+
+(* the parsers of these replies never fail with a timeout-class error themselves *)
+Theorem c10_malformed_is_not_a_timeout :
+  Rnt bedrock_parse /\ Rnt mindustry_parse /\ (forall d, Rnt (gs2_header d)) /\ (forall v, Rnt (quake_header v)).
+Proof. exact (conj bedrock_parse_nt (conj mindustry_parse_nt (conj gs2_header_nt quake_header_nt))). Qed.
+Print Assumptions c10_malformed_is_not_a_timeout.
+
+(* GameSpy 1 / 3, JC2-MP, Minecraft Java and legacy: the whole exchange is the retried unit *)
+Theorem c10_exchange_units_retried : forall port t,
+  gs1_query_vars port t = (do* _ := udp_new port t in retry_on_timeout (ts_retries_or_default t) (gs1_values_impl port))
+  /\ gs3_packets port t = (do* _ := udp_new port t in retry_on_timeout (ts_retries_or_default t) (gs3_packets_impl port))
+  /\ jc2m_query port t = (do* _ := udp_new port t in
+                          do* d := retry_on_timeout (ts_retries_or_default t) (jc2m_packets_impl port) in mlift (jc2m_build d))
+  /\ (forall g, query_legacy_specific g port t
+               = (do* _ := tcp_new port t in retry_on_timeout (ts_retries_or_default t) (legacy_info_impl g port))).
+Proof. exact (fun port t => conj eq_refl (conj eq_refl (conj eq_refl (fun g => eq_refl)))). Qed.
+Print Assumptions c10_exchange_units_retried.
 
 Example c10_ex : (* two timeouts then a reply, r = 2 *)
   let att : M N := fun n => match n_udp n with
